@@ -16,6 +16,7 @@ import (
 	"github.com/synnaxlabs/x/kv"
 	"github.com/synnaxlabs/x/observe"
 	"github.com/synnaxlabs/x/override"
+	"sync"
 )
 
 type Option func(o *options)
@@ -43,12 +44,18 @@ type options struct {
 	// on tables opened against the DB. Per-table TableConfig.Observable
 	// takes precedence; when neither is set, the DB itself is used.
 	IndexObservable observe.Observable[kv.TxReader]
+	// commitMu orders the transactions opened from one DB at commit time:
+	// it is held while a transaction commits to the KV and while the hooks
+	// that promote its staged index deltas run, so that indexes receive the
+	// deltas in the order the KV received the writes.
+	commitMu *sync.Mutex
 }
 
 var defaultOptions = options{Codec: orc.NewCodec(msgpack.Codec)}
 
 func newOptions(opts []Option) options {
 	o := defaultOptions
+	o.commitMu = &sync.Mutex{}
 	for _, opt := range opts {
 		opt(&o)
 	}
